@@ -2134,3 +2134,21 @@ def n_then_some(ex, callee, a, env):
 @native(r'^bool::then$|<impl bool>::then$', 'bool::then')
 def n_then(ex, callee, a, env):
     return Some(ex.call_value(a[1], [])) if _truthy(ex, a[0]) else NONE()
+
+
+@native(r'^(core::)?(slice::ascii::<impl \[u8\]>|str::<impl str>)::(trim_ascii_start|trim_ascii_end|trim_ascii)$', 'trim_ascii*')
+def n_trim_ascii(ex, callee, a, env):
+    sl = as_slice(a[0])
+    items = list(sl.items())
+    lo, hi = 0, len(items)
+    T = ex.truth
+
+    def ws(b):      # u8::is_ascii_whitespace: SP, HT, LF, FF, CR
+        return Or(_eq(b, 32), _eq(b, 9), _eq(b, 10), _eq(b, 12), _eq(b, 13))
+    if not callee.endswith('trim_ascii_end'):
+        while lo < hi and T(ws(items[lo])):
+            lo += 1
+    if not callee.endswith('trim_ascii_start'):
+        while hi > lo and T(ws(items[hi - 1])):
+            hi -= 1
+    return Slice(sl.buf, sl.start + lo, hi - lo, sl.is_str)
